@@ -4,6 +4,7 @@ package main
 
 import (
 	"fmt"
+	"os"
 	"go/types"
 	"path/filepath"
 	"sort"
@@ -28,6 +29,11 @@ type FuncResult struct {
 	Vacuity   *Oblig
 	Decls     string
 	Exec      *Exec
+	// return statements (source positions) that no path reaches without
+	// contradicting the assumptions made on the way: every postcondition
+	// there is discharged vacuously
+	DeadReturns []string
+	CoverChecked int
 }
 
 type VerifyOpts struct {
@@ -96,6 +102,10 @@ func VerifyFunction(L *Loaded, cs *ContractSet, fn *ssa.Function, opts VerifyOpt
 		params = append(params, v)
 		if sig, ok := p.Type().Underlying().(*types.Signature); ok && isYieldSig(sig) && strings.HasPrefix(p.Name(), "yield") {
 			st.seqOn = true
+			if sig.Params().Len() >= 1 {
+				// ghost sequence of the items handed to the consumer (empty so far)
+				x.yieldGhost(st, x.te.SortOf(sig.Params().At(0).Type()))
+			}
 			st.assume(Not(Eq(Term{fmt.Sprintf("(fid %s)", v.T.S), "Int"}, IntLit(0))))
 			x.funcsUsed["assume:iterator protocol: the consumer (yield) handed to an iterator is non-nil"] = true
 		}
@@ -350,8 +360,8 @@ func capturedImmutable(fn *ssa.Function, fv *ssa.FreeVar) bool {
 					}
 					for _, mc := range mcs {
 						sb, mb := in.Block(), mc.Block()
-						before := sb.Dominates(mb) && (sb != mb || idxOf(in) < idxOf(mc))
-						if !before || reach(mb, sb) {
+						// the store can never run after the closure was made
+						if reach(mb, sb) || (sb == mb && idxOf(in) > idxOf(mc)) {
 							return false
 						}
 					}
@@ -797,6 +807,78 @@ func (dg *Discharger) Run(results []*FuncResult) {
 	}
 	close(ch)
 	wg.Wait()
+	dg.cover(results)
+}
+
+// cover: reachability of each return statement at which a postcondition was
+// discharged. For every (function, return position) the path condition of
+// one path must be satisfiable (or at least not refuted): if the solver
+// refutes the path condition of every path to it, the obligations there hold
+// vacuously and the position is reported.
+func (dg *Discharger) cover(results []*FuncResult) {
+	type key struct {
+		r   *FuncResult
+		pos string
+	}
+	groups := map[key][]*Oblig{}
+	var order []key
+	for _, r := range results {
+		// every path that ends at a return yields one instance of each
+		// postcondition there: the instances of one of them stand for the paths
+		chosen := map[string]string{}
+		for _, o := range r.Obls {
+			if o.Class != "POST" || o.Pos == "" || o.Result == nil {
+				continue
+			}
+			if n, ok := chosen[o.Pos]; ok && n != o.Name {
+				continue
+			}
+			chosen[o.Pos] = o.Name
+			k := key{r, o.Pos}
+			if _, ok := groups[k]; !ok {
+				order = append(order, k)
+			}
+			groups[k] = append(groups[k], o)
+		}
+	}
+	var mu sync.Mutex
+	var wg sync.WaitGroup
+	sem := make(chan struct{}, 16)
+	for _, k := range order {
+		k := k
+		wg.Add(1)
+		sem <- struct{}{}
+		go func() {
+			defer wg.Done()
+			defer func() { <-sem }()
+			dead := true
+			for _, o := range groups[k] {
+				q := buildQuery(k.r.Decls, o.PC, False)
+				res := Solve(q, time.Second, false)
+				if res.Answer != "unsat" {
+					dead = false
+					break
+				}
+			}
+			mu.Lock()
+			k.r.CoverChecked++
+			if dead {
+				k.r.DeadReturns = append(k.r.DeadReturns, k.pos)
+				if dir := os.Getenv("GOVC_DEBUG_COVER"); dir != "" && len(groups[k]) > 0 {
+					os.WriteFile(filepath.Join(dir, "dead_"+sanitize(filepath.Base(k.pos))+".smt2"), []byte(buildQuery(k.r.Decls, groups[k][0].PC, False)+"(check-sat)\n"), 0o644)
+				}
+			}
+			mu.Unlock()
+		}()
+	}
+	wg.Wait()
+}
+
+func lastPC(o *Oblig) string {
+	if len(o.PC) == 0 {
+		return ""
+	}
+	return shortHash(o.PC[len(o.PC)-1].S)
 }
 
 // Group merges the per-path instances of one named obligation.
